@@ -270,8 +270,8 @@ def leafCarrier : String → Option Carrier
   | "time" => some .time | "timestamp" => some .timestamp | "duration" => some .duration
   | "varint" => some .varint | "decimal" => some .decimal | "counter" => some .counter | "dyn" => some .dyn
   -- identified with their content / their core carrier after conversion
-  | "bytes" | "bytesref" | "bytesarr4" | "bytesarr16" => some .blob
-  | "strref" | "cowstr" | "secret08string" | "secret10string" => some .string
+  | "bytes" | "bytesref" | "cowbytes" | "bytesarr4" | "bytesarr16" => some .blob
+  | "strref" | "cowstr" | "boxstr" | "arcstr" | "secret08string" | "secret10string" => some .string
   | "varintborrowed" | "bigint03" | "bigint04" => some .varint
   | "decimalborrowed" | "bigdecimal" => some .decimal
   | "chronodate" | "timedate" => some .date
@@ -289,7 +289,7 @@ def parseCarrier : Nat → List String → Option (Carrier × List String)
     | "opt" => (parseCarrier fuel rest).map fun (c, r) => (.opt c, r)
     | "munset" => (parseCarrier fuel rest).map fun (c, r) => (.maybeUnset c, r)
     | "mempty" => (parseCarrier fuel rest).map fun (c, r) => (.maybeEmpty c, r)
-    | "vec" | "slice" => (parseCarrier fuel rest).map fun (c, r) => (.vec c, r)
+    | "vec" | "slice" | "secretslice10" => (parseCarrier fuel rest).map fun (c, r) => (.vec c, r)
     | "box" | "arc" | "dynser" => parseCarrier fuel rest
     | "bset" | "hset" => (parseCarrier fuel rest).map fun (c, r) => (.set c, r)
     | "bmap" | "hmap" =>
@@ -299,6 +299,8 @@ def parseCarrier : Nat → List String → Option (Carrier × List String)
     | "tup1" => (parseCarriers fuel 1 rest).map fun (cs, r) => (.tuple cs, r)
     | "tup2" => (parseCarriers fuel 2 rest).map fun (cs, r) => (.tuple cs, r)
     | "tup3" => (parseCarriers fuel 3 rest).map fun (cs, r) => (.tuple cs, r)
+    | "tup4" => (parseCarriers fuel 4 rest).map fun (cs, r) => (.tuple cs, r)
+    | "tup16" => (parseCarriers fuel 16 rest).map fun (cs, r) => (.tuple cs, r)
     | leaf => (leafCarrier leaf).map fun c => (c, rest)
 def parseCarriers : Nat → Nat → List String → Option (List Carrier × List String)
   | 0, _, _ => none
@@ -427,7 +429,9 @@ def runConv (w : List String) : String :=
     | some (secs, frac) => s!"{secs} {frac}"
     | none => "overflow"
   | "chrono_dt" :: _, some [secs, millis] => toString (chronoDtToCql secs millis)
-  | "cql_chrono_dt" :: _, some [ms] => let r := cqlToChronoDt ms; s!"{r.1} {r.2}"
+  | "cql_chrono_dt" :: _, some [ms] => match cqlToChronoDt ms with
+    | some (a, b) => s!"{a} {b}"
+    | none => "overflow"
   | "chrono_date" :: _, some [days] => toString (chronoDateToCql days)
   | "bounds" :: _, some [] =>
     s!"{chronoDateMinDays} {chronoDateMaxDays} {chronoDtMinMs} {chronoDtMaxMs} {timeDateMinJd} {timeDateMaxJd}"
@@ -453,6 +457,15 @@ def runConv (w : List String) : String :=
     | some x => toString x
     | none => "ValueOverflow"
   | _, _ => "bad-case"
+
+/-- `conv ser_bigdecimal <scale> <hex>`: `BigDecimal` with an `i64` exponent bound to `decimal`. -/
+def runBigDecimal (scale : Int) (b : List UInt8) : String :=
+  match ScyllaVerif.ExternalConv.bigDecimalScale scale with
+  | none => "ValueOverflow"
+  | some s =>
+    match encImpl (.native .decimal) (.decimal (BitVec.ofInt 32 s) b) true [] with
+    | .ok cell => toHex cell
+    | .error e => "err " ++ serErrName e
 
 def run (case _impl : String) : String :=
   let toks := words case
@@ -531,6 +544,10 @@ def run (case _impl : String) : String :=
         | .ok cell => "ok " ++ toString cell.length
         | .error e => "err " ++ serErrName e
     | none => "bad-case"
+  | ["conv", "ser_bigdecimal", sc, h] =>
+    match sc.toInt?, parseHex h with
+    | some sc, some b => runBigDecimal sc b
+    | _, _ => "bad-case"
   | "conv" :: rest => runConv rest
   | "tdec" :: name :: rest =>
     -- the typed deserializer of carrier `name` on an arbitrary cell body
